@@ -27,6 +27,7 @@ import (
 	"strings"
 	"sync/atomic"
 	"testing"
+	"time"
 
 	"verifharness/internal/ev"
 	"verifharness/internal/gen"
@@ -36,8 +37,24 @@ import (
 // RawCase is an arbitrary byte string offered to one parser.
 type RawCase struct {
 	Format string `json:"format"`
-	Hex    string `json:"hex"`
+	Hex    string `json:"hex,omitempty"`
 	Note   string `json:"note,omitempty"`
+	// Nested > 0: instead of Hex, a native-format file with no gates and
+	// one 1-bit input whose type text is "[]" x Nested + "uint1".  Its name
+	// has 4068 bytes so that the type text starts at file offset 4096 and
+	// is read completely whether or not finding F10 is fixed.
+	Nested int `json:"nested,omitempty"`
+	// BudgetMS overrides the per-call time budget (0 = default).
+	BudgetMS int `json:"budget_ms,omitempty"`
+}
+
+func nestedTypeFile(depth int) []byte {
+	text := strings.Repeat("[]", depth) + "uint1"
+	data := be32(0x63726300, 0, 1, 1, 0, 4068)
+	data = append(data, make([]byte, 4068)...)
+	data = append(data, be32(uint32(len(text)))...)
+	data = append(data, text...)
+	return append(data, be32(1, 0)...)
 }
 
 func init() {
@@ -50,7 +67,17 @@ func runRaw(cs RawCase) ev.Outcome {
 	if err != nil {
 		return ev.Outcome{Skip: "bad hex"}
 	}
-	v := checkBytes(ev.Get(prop), cs.Format, data)
+	b := budget()
+	if cs.BudgetMS > 0 {
+		b = time.Duration(cs.BudgetMS) * time.Millisecond
+	}
+	if cs.Nested > 0 {
+		if cs.Nested > 400000 {
+			return ev.Outcome{Skip: "nesting beyond the precondition"}
+		}
+		data = nestedTypeFile(cs.Nested)
+	}
+	v := checkBytesB(ev.Get(prop), cs.Format, data, b)
 	if v.Skip != "" {
 		return ev.Outcome{Skip: v.Skip}
 	}
@@ -59,7 +86,11 @@ func runRaw(cs RawCase) ev.Outcome {
 		out.Key = sha(cs.Format, data)
 		return out
 	}
-	out := ev.OK(v.Gates >= 1, "result="+v.Class)
+	classes := []string{"result=" + v.Class}
+	if cs.Nested > 0 {
+		classes = append(classes, "nested-array-type-text")
+	}
+	out := ev.OK(v.Gates >= 1 || cs.Nested > 0, classes...)
 	out.Key = sha(cs.Format, data)
 	return out
 }
@@ -187,6 +218,16 @@ func TestHostile(t *testing.T) {
 		for _, s := range bristolSeeds() {
 			yield(RawCase{Format: "bristol", Hex: hex.EncodeToString(s)})
 		}
+	}, runRaw)
+	// Cost of nested array type texts (declared string length <= 200 KB,
+	// well inside the precondition).  The small ones are plain robustness
+	// cases; the last one is decided by the hang guard with a 3 s budget
+	// (9 s on the re-run): types.Parse of the unchanged tree needs minutes.
+	ev.Each(t, col, "mpclc-raw", func(yield func(RawCase) bool) {
+		for _, d := range []int{1, 10, 100, 1000, 2000} {
+			yield(RawCase{Format: "mpclc", Nested: d})
+		}
+		yield(RawCase{Format: "mpclc", Nested: 100000, BudgetMS: 3000})
 	}, runRaw)
 }
 
